@@ -167,11 +167,20 @@ def ref_Tinv_P():
 
 
 def _quat_checks(P, F, dirs):
-    from cardillo.math import T_SO3_quat, T_SO3_quat_P, T_SO3_inv_quat, T_SO3_inv_quat_P
+    from cardillo.math import T_SO3_quat, T_SO3_quat_P, T_SO3_inv_quat, T_SO3_inv_quat_P, Exp_SO3_quat, Exp_SO3_quat_P
+    from vp.props.c01 import ref_R_P
 
     P = np.asarray(P, float)
     h = 1e-30
     sc = max(1.0, 1.0 / float(P @ P))
+    # derivative of the rotation matrix itself w.r.t. the (any-length) quaternion, all four components (radial one included)
+    R_P = Exp_SO3_quat_P(P, normalize=True)
+    dR = {"P": P.tolist(), "normalize": True, "P2_minus_1": float(P @ P - 1.0)}
+    F.cmp("Exp_SO3_quat_P vs exact rational derivative", R_P, ref_R_P(P, True), 1e-9 * max(1.0, 1.0 / float(np.sqrt(P @ P))), dR, "RquatP_rational")
+    for v in dirs:
+        Pc = P.astype(complex) + 1j * h * v
+        F.cmp("Exp_SO3_quat_P vs complex-step derivative of Exp_SO3_quat", R_P @ v, np.imag(Exp_SO3_quat(Pc, normalize=True)) / h,
+              1e-9 * max(1.0, 1.0 / float(np.sqrt(P @ P))), dict(dR, v=v.tolist()), "RquatP_cs")
     for normalize in (True, False):
         sfx = "" if normalize else " [normalize=False]"
         d = {"P": P.tolist(), "normalize": normalize}
@@ -204,6 +213,11 @@ def check(case):
             Ps = [case["prefix"] + [p2, p3] for p2, p3 in itertools.product(GRID, repeat=2) if any(case["prefix"]) or p2 or p3]
         else:
             Ps = [al.generic_quat(seed, k).tolist() for k in range(6)]
+            # numerically normalised generic quaternions (|P|^2 = 1 up to one rounding) and nearly-unit ones
+            for k in range(6):
+                g = np.asarray(al.generic_quat(seed, 10 + k), float)
+                g = g / np.sqrt(g @ g)
+                Ps += [g.tolist(), (g * (1 + 4e-6)).tolist(), (g * (1 - 3e-9)).tolist()]
         for P in Ps:
             _quat_checks(P, F, dirs)
             n += 1
